@@ -140,6 +140,56 @@ func MustConds(fn *ssa.Function, ap AcceptPoint) []Cond {
 			}
 		}
 	}
+	// consequences of short-circuit values used as conditions
+	n := len(out)
+	for i := 0; i < n; i++ {
+		out = append(out, impliedByBoolPhi(out[i], 0)...)
+	}
+	return out
+}
+
+// impliedByBoolPhi: a condition that is itself a φ of short-circuit evaluation — `a && b` lowered to
+// φ[false, b], `a || b` to φ[true, b] when the expression is used as a value (a tagless switch case, an
+// assignment) — implies, when only one incoming edge can produce the known truth value, the value on
+// that edge and every branch condition needed to reach that edge from the φ's dominator.
+func impliedByBoolPhi(cd Cond, depth int) []Cond {
+	ph, ok := cd.V.(*ssa.Phi)
+	if !ok || depth > 4 {
+		return nil
+	}
+	var surv []int
+	for i, e := range ph.Edges {
+		if bv, isB := constBool(e); isB && bv != cd.Truth {
+			continue
+		}
+		surv = append(surv, i)
+	}
+	if len(surv) != 1 {
+		return nil
+	}
+	i := surv[0]
+	var out []Cond
+	pred := ph.Block().Preds[i]
+	if _, isC := ph.Edges[i].(*ssa.Const); !isC {
+		c := Cond{ph.Edges[i], cd.Truth, pred}
+		out = append(out, c)
+		out = append(out, impliedByBoolPhi(c, depth+1)...)
+	}
+	outer := map[ssa.Value]bool{}
+	if id := ph.Block().Idom(); id != nil {
+		for _, c := range DomConds(id) {
+			outer[c.V] = true
+		}
+	}
+	for _, c := range DomConds(pred) {
+		if !outer[c.V] {
+			out = append(out, c)
+			out = append(out, impliedByBoolPhi(c, depth+1)...)
+		}
+	}
+	if ec, ok := edgeCond(pred, ph.Block()); ok {
+		out = append(out, ec)
+	}
 	return out
 }
 
